@@ -506,8 +506,31 @@ class Builder:
                 if scrut[1] in consts:
                     return self._inline(fn)
             return self._inline(default)
+        def rejects(s):
+            return not s["steps"] and s["ret"] and s["ret"][0] == "err" and s["ret"][2] == "Error"
+        built = []
+        for consts, fn in arms:
+            s = self._nested(fn)
+            built.append((sorted(consts), s, self._last_child))
+        d = self._nested(default)
+        dchild = self._last_child
+        live = [x for x in built if not rejects(x[1])]
+        # `match x { c => body, _ => Err }` is a guard (reject unless x == c) followed by body;
+        # `match x { c => Err, _ => body }` is a guard (reject if x == c) followed by body
+        if built and rejects(d) and len(live) == 1:
+            cond_ = None
+            for c in live[0][0]:
+                t = ne(scrut, N(c))
+                cond_ = t if cond_ is None else land(cond_, t)
+            self.guard(cond_, d["ret"][1])
+            return self._splice(live[0][1], live[0][2])
+        if built and not live and not rejects(d):
+            for consts, s, _ in built:
+                for c in consts:
+                    self.guard(eq(scrut, N(c)), s["ret"][1])
+            return self._splice(d, dchild)
         b = self.counter.fresh()
-        a2 = [[sorted(consts), self._nested(fn)] for consts, fn in arms]
+        a2 = [[consts, s] for consts, s, _ in built]
         a2.sort(key=lambda x: x[0])
         # merge arms with identical bodies? no: keep one entry per constant for comparison
         flat = []
@@ -515,7 +538,6 @@ class Builder:
             for c in consts:
                 flat.append([c, s])
         flat.sort(key=lambda x: x[0])
-        d = self._nested(default)
         self.steps.append(["switch", b, scrut, flat, d])
         self._adv()
         return V(b)
